@@ -80,6 +80,16 @@ type SearchNode struct {
 	NodeType                  SearchNodeType // type of search request
 }
 
+// True if the query selects the records that do NOT match its filter: a negated match of words, or a negated all-column
+// comparison with a number. The micro indices cannot rule out a block for such a query, and the matched records are
+// inverted record by record.
+func (q *SearchQuery) IsNegated() bool {
+	if q.MatchFilter != nil {
+		return q.MatchFilter.NegateMatch
+	}
+	return q.ExpressionFilter != nil && q.ExpressionFilter.NegateMatch
+}
+
 func (q *SearchQuery) IsMatchAll() bool {
 	if q.ExpressionFilter != nil {
 		return q.ExpressionFilter.IsMatchAll()
